@@ -27,7 +27,7 @@ Part `fold` (explicit-state search, vf.run.bfs)
 Part `sweep` (end to end)
     power shape {bottom, middle, top, several equal maxima, zero} x axial
     structure {bundle, reflector + bundle + reflector (1 / 6 coolant nodes,
-    one duct)} x ducts {1, 2} x pin model {FuelModel, PinModel, none} x
+    one duct)} x ducts {1, 2, 3} x pin model {FuelModel, PinModel, none} x
     {1, 2 assemblies} (thorough: x rings {2, 3} x gap model {none, flow}).
     A recorder wrapped round `Assembly.calculate` copies coolant, duct mid-wall
     and pin arrays after every plane.  After `temperature_sweep()`:
@@ -484,8 +484,10 @@ def cases_sweep(tier):
     if tier == 'quick':
         for si, sh in enumerate(SHAPES):
             for ti, st in enumerate(STRUCTS):
-                for nd in (1, 2):
+                for nd in (1, 2, 3):
                     for na in (1, 2):
+                        if nd == 3 and (si + ti + na) % 2:
+                            continue        # three ducts: half of the combinations in the quick tier
                         # pin model by a fixed covering rule: every (letter, model) pair occurs
                         mdl = MODELS[(si + ti + nd + na) % 3]
                         out.append({'part': 'sweep', 'shape': sh, 'structure': st, 'ducts': nd, 'model': mdl,
@@ -495,7 +497,7 @@ def cases_sweep(tier):
             for gap in ('none', 'flow'):
                 for sh in SHAPES:
                     for st in STRUCTS:
-                        for nd in (1, 2):
+                        for nd in (1, 2, 3):
                             for mdl in MODELS:
                                 for na in (1, 2):
                                     out.append({'part': 'sweep', 'shape': sh, 'structure': st, 'ducts': nd,
